@@ -16,6 +16,8 @@ import (
 	"fmt"
 	"os"
 	"runtime"
+	"runtime/debug"
+	"runtime/pprof"
 	"sort"
 	"strconv"
 	"sync"
@@ -29,6 +31,7 @@ import (
 )
 
 var r *report.Run
+var stopProf = func() {}
 
 var keyHex = []string{
 	"b71c71a67e1177ad4e901695e1b4b9ee17ae16c6668d313eac2f96dbcda3f291",
@@ -83,22 +86,35 @@ func startWatchdog() {
 
 var confirmed sync.Map
 
-// reportFindings confirms (5 re-executions on fresh objects) and records violations.
+// reportFindings confirms (5 re-executions on fresh objects, all must show the same signature) and
+// records violations. A finding that does not reproduce is never reported as a violation; it is
+// counted, and if the run ends without any confirmed violation it is a machinery error (exit 3).
+var irreproducible int64
+var firstIrreproducible atomic.Value
+
 func reportFindings(c caseSpec, fs []finding) {
 	for _, f := range fs {
-		if _, seen := confirmed.LoadOrStore(f.sig, true); seen {
+		if _, seen := confirmed.Load(f.sig); seen {
 			r.Violation(f.sig, f.what, c)
 			continue
 		}
-		f := f
-		r.ViolationConfirmed(f.sig, f.what, c, func() string {
+		ok := true
+		for i := 0; i < 5 && ok; i++ {
+			ok = false
 			for _, g := range runCase(c) {
 				if g.sig == f.sig {
-					return g.sig
+					ok = true
 				}
 			}
-			return "not reproduced"
-		})
+		}
+		if !ok {
+			if atomic.AddInt64(&irreproducible, 1) == 1 {
+				firstIrreproducible.Store(f.sig + ": " + f.what)
+			}
+			continue
+		}
+		confirmed.Store(f.sig, true)
+		r.Violation(f.sig, f.what, c)
 	}
 }
 
@@ -237,6 +253,15 @@ func main() {
 	mergeCache[[2]int{3, 2}] = merges(3, 2)
 	mergeCache[[2]int{3, 3}] = merges(3, 3)
 	startWatchdog()
+	// Every MConnection allocates two 64 KiB buffers; with the tiny live heap of this checker the
+	// default pacer would collect every few dozen cases. Collect on a memory budget instead.
+	debug.SetGCPercent(-1)
+	debug.SetMemoryLimit(2560 << 20)
+	if pf := os.Getenv("VERIF_C20_PROF"); pf != "" {
+		f, _ := os.Create(pf)
+		pprof.StartCPUProfile(f)
+		stopProf = pprof.StopCPUProfile
+	}
 
 	if r.ReplayPath != "" {
 		var c caseSpec
@@ -290,7 +315,7 @@ func main() {
 		"(a3) man in the middle on a session of ephemeral-key message + auth frame + 4 data frames between two real SecretConnections, for BOTH lexical orders of the ephemeral keys: one bit flipped at first/middle/last byte of header, body and tag of every frame (and 6 positions of the key message), every unit dropped / cut off / duplicated / swapped with its successor / truncated at {1, half, len-1, tag only} with and without the rest following, every earlier unit of the same session inserted before or put in place of every later one, every unit of an earlier session of the same two identities inserted / substituted, the whole earlier stream, the ephemeral key replaced by 12 low-order points, the victim's own key, all-ff; oracle: error or stall before any altered byte is delivered, intact prefix delivered, anything but a pure cut of the tail detected as an ERROR. "+
 		"(a4) active attacker (independent implementation of the handshake, validated against the real one in both directions): claims a third party's key with own / relayed / 10 malformed signatures, signs another challenge, reflects the victim's message, seals with the wrong direction key, sends low-order keys, and as authenticated peer sends frames with 8 out-of-range length fields. "+
 		"(b) MultiplexTransport.upgrade: {inbound, dialled id = / != authenticated id} x {NodeInfo id = authenticated / third party / the node's own} x {peer key foreign / the node's own} x {compatible, other network, other block version, no common channel} x {valid, 4 invalid NodeInfos}, accepted iff all consistent, foreign, compatible, valid; plus the reflecting attacker x {inbound, dialled self, dialled other} x {NodeInfo reflected, own, none}. "+
-		"(c) MConnection: real unstarted sender driven op by op, real started receiver on the produced bytes, reference receiver on the same bytes: all message vectors of <=%d messages over 3 channels x 8 sizes {0,1,maxPayload-1,maxPayload,maxPayload+1,3*maxPayload,capacity,capacity+1} x {0,1,2,all} packets sent between enqueues x 3 flush policies; every op sequence of length <=L over {enqueue(3 channels x {1,maxPayload+1,capacity+1}), send one packet, flush} with <=3 enqueues and send-queue capacity 1, read back in chunks as written and 7 bytes at a time; hand-made packet streams: every merge of the packets of three multi-packet messages on three channels, unknown channel ids, a never-ending message, exact capacity +0/+1 byte, ping/pong in between; the repository's default capacity (21 MiB) +0/+1; message vectors through the full stack MConnection -> SecretConnection -> pipe -> SecretConnection -> MConnection. "+
+		"(c) MConnection: real unstarted sender driven op by op, real started receiver on the produced bytes, reference receiver on the same bytes: all message vectors of <=%d messages over 3 channels x 8 sizes {0,1,maxPayload-1,maxPayload,maxPayload+1,3*maxPayload,capacity,capacity+1} x {0,1,all} packets sent between enqueues x 2 flush policies (thorough: {0,1,2,all} x 3 for <=3 messages, {0,all} x 2 for 4 messages); every op sequence of length <=5 (thorough 7, plus the batch step) over {enqueue(3 channels x {1,maxPayload+1,capacity+1}), send one packet, flush} with <=3 enqueues and send-queue capacity 1, read back in chunks as written and 7 bytes at a time; hand-made packet streams: every merge of the packets of three multi-packet messages on three channels, unknown channel ids, a never-ending message, exact capacity +0/+1 byte, ping/pong in between; the repository's default capacity (21 MiB) +0/+1; message vectors through the full stack MConnection -> SecretConnection -> pipe -> SecretConnection -> MConnection. "+
 		"evaluations = sessions / cases executed on the real code. distinct_nontrivial = distinct (phase, input class, key order where relevant, observed outcome [, frame layout + read return sizes for chunkings, size/channel vector + op string for MConnection]) over cases that are non-trivial: the stream spans >=2 frames (chunkings), the manipulation really changed the delivered bytes (man in the middle), the attacker got through the key exchange (attacker), the upgrade ran a handshake (transport), >=1 message was queued or >=1 packet parsed (MConnection).", kw, streamLen, kr, ml, km))
 	r.Assume(
 		"cryptographic hardness (X25519, ChaCha20-Poly1305, ECDSA/secp256k1, HKDF, merlin) is assumed; ephemeral keys and hence ciphertexts are random per run, the outcome classes are not",
@@ -302,6 +327,15 @@ func main() {
 		"per-channel delivery order is compared (not the global order); messages that TrySend refused (queue full) must not be delivered, accepted ones must",
 		"intact-prefix reading: frames that arrive unaltered and in place before the first manipulated byte must be delivered (they are indistinguishable from a clean session up to there)")
 	r.Exhaustive(true)
+	stopProf()
+	r.Set("distinct_nontrivial", nontrivial.count())
+	if n := atomic.LoadInt64(&irreproducible); n > 0 {
+		r.Set("irreproducible_findings_not_reported", n)
+		if r.NumViolations() == 0 {
+			fmt.Printf("MACHINERY-ERROR property=C20 %d finding(s) did not reproduce in 5 re-executions and nothing else was found; first: %v\n", n, firstIrreproducible.Load())
+			os.Exit(3)
+		}
+	}
 
 	// vacuity guards
 	r.Require(r.Get("evaluations") > 20000, "fewer than 20000 cases executed")
@@ -339,7 +373,7 @@ func phaseEvil() {
 			r.Add("evil_rejected", 1)
 		}
 		if outcome != "no-key-exchange" {
-			r.Distinct("distinct_nontrivial", fmt.Sprintf("evil|%s|%d|%v|%s", sp.Scenario, sp.Param, sp.Lower, outcome))
+			nontrivial.add(fmt.Sprintf("evil|%s|%d|%v|%s", sp.Scenario, sp.Param, sp.Lower, outcome))
 		}
 		r.Distinct("evil_scenarios", sp.Scenario)
 		if (sp.Scenario == "reflect-victims-auth-message" || sp.Scenario == "claim-third-party-key-replayed-signature") && r.WantSample() && sp.Lower {
@@ -369,7 +403,7 @@ func phaseTransport() {
 			} else {
 				r.Add("transport_rejected", 1)
 			}
-			r.Distinct("distinct_nontrivial", "transport|"+sp.class()+"|"+outcome)
+			nontrivial.add("transport|" + sp.class() + "|" + outcome)
 			r.Distinct("transport_outcomes", outcome)
 			if sp.mustAccept() && r.WantSample() {
 				r.Sample(map[string]interface{}{"phase": "transport", "case": sp, "outcome": outcome})
@@ -385,7 +419,7 @@ func phaseTransport() {
 		if outcome != "accepted" && outcome != "no-key-exchange" {
 			r.Add("transport_reflection_rejected", 1)
 		}
-		r.Distinct("distinct_nontrivial", fmt.Sprintf("reflect|%s|%s|%v|%s", sp.Dial, sp.NodeInfo, sp.Lower, outcome))
+		nontrivial.add(fmt.Sprintf("reflect|%s|%s|%v|%s", sp.Dial, sp.NodeInfo, sp.Lower, outcome))
 		r.Distinct("transport_reflection_outcomes", outcome)
 		if len(fs) > 0 {
 			reportFindings(caseSpec{Phase: "transport-reflection", Reflect: &sp}, fs)
@@ -424,13 +458,13 @@ func phaseMitm() {
 		switch {
 		case len(oc) > 9 && oc[:9] == "detected:":
 			r.Add("mitm_detected_as_error", 1)
-		case oc == "cut:stall":
+		case oc == "cut:stall" || oc == "short-garbage-tail:stall":
 			r.Add("mitm_stalled", 1)
 		case oc == "delivered-all":
 			r.Add("mitm_clean_delivered_all", 1)
 		}
 		if changed || m.Kind == "none" {
-			r.Distinct("distinct_nontrivial", fmt.Sprintf("mitm|%s|%v|%s", m.class(0), o.victimLeast, oc))
+			nontrivial.add(fmt.Sprintf("mitm|%s|%v|%s", m.class(0), o.victimLeast, oc))
 		}
 		r.Distinct("mitm_classes", m.class(0))
 		if (m.Kind == "dup" || m.Kind == "flip") && m.K == 3 && least && r.WantSample() {
@@ -450,7 +484,7 @@ func phaseMitm() {
 	// offered every single-bit variant of the frame that is due; in the end the genuine frame must
 	// still be accepted (otherwise this sub-phase is vacuous and says so).
 	t1 := time.Now()
-	var total, doneBits int64
+	var doneBits int64
 	for rep := 0; rep < 2 && !r.Expired(); rep++ {
 		pr, hf := newCleanPair(keys[0], keys[1])
 		r.Add("evaluations", 1)
@@ -466,14 +500,9 @@ func phaseMitm() {
 		payload := pattern(40+rep, 777)
 		w.Write(payload)
 		frame := in.unitsCopy()[0]
-		step := 1
-		if r.Quick() {
-			step = 1
-		}
 		buf := make([]byte, 2048)
 		bad := false
-		total += int64(len(frame) * 8)
-		for pos := 0; pos < len(frame) && !bad; pos += step {
+		for pos := 0; pos < len(frame) && !bad; pos++ {
 			for bit := 0; bit < 8; bit++ {
 				x := append([]byte(nil), frame...)
 				x[pos] ^= 1 << uint(bit)
@@ -503,7 +532,6 @@ func phaseMitm() {
 		pr.close()
 		doneBits = 0
 	}
-	_ = total
 	r.Require(r.Get("mitm_genuine_frame_accepted_after_all_flips") > 0 || r.Get("info_receiver_does_not_accept_the_genuine_frame_after_rejections") > 0 || r.NumViolations() > 0 || r.Expired(), "all-positions bit-flip sub-phase did not run")
 	fmt.Fprintf(os.Stderr, "c20: phase %-22s %6.1fs\n", "all-bit-flips", time.Since(t1).Seconds())
 }
@@ -556,7 +584,7 @@ func phaseStreams() {
 		r.Add("evaluations", 1)
 		r.Add("chunk_cases", 1)
 		if key != "" && len(framesOf(c.Writes)) >= 2 {
-			r.Distinct("distinct_nontrivial", "chunk|"+key)
+			nontrivial.add("chunk|" + key)
 		}
 		if i == 12345 || i == nFull+7 {
 			r.Sample(map[string]interface{}{"phase": "chunk", "case": c, "observed": key})
@@ -597,7 +625,7 @@ func phaseStreams() {
 		r.Add("evaluations", 1)
 		r.Add("merge_cases", 1)
 		if key != "" {
-			r.Distinct("distinct_nontrivial", "merge|"+key)
+			nontrivial.add("merge|" + key)
 		}
 		if i == 777 {
 			r.Sample(map[string]interface{}{"phase": "merge", "case": m, "observed": key})
@@ -634,7 +662,7 @@ func runFreePhase(iters int) int64 {
 		r.Add("free_running_iterations", 1)
 		if key != "" {
 			orders.Store(key, true)
-			r.Distinct("distinct_nontrivial", "free|"+key)
+			nontrivial.add("free|" + key)
 			r.Distinct("free_running_orders", key)
 		}
 		if i == 0 {
@@ -664,6 +692,7 @@ func racePassMain() {
 		fmt.Fprintln(os.Stderr, "c20: note: C20_RACE_PASS=1 without VERIF_RACE=1: the race detector is not compiled in, only stream integrity is checked")
 	}
 	r.Set("rule", fmt.Sprintf("race pass: %d free-running iterations on real SecretConnection pairs, per iteration and direction two real writer goroutines issuing 7 tagged Write calls each (sizes from %v) and one reader goroutine with varying buffer sizes; oracle: the bytes read are a concatenation of whole intact Write payloads, every writer's payloads in its own order, all delivered, no error; the race detector (exit 66) judges the rest. distinct_nontrivial = distinct observed payload orders", iters, freeSizes))
+	r.Set("distinct_nontrivial", nontrivial.count())
 	r.Assume("the process is built with -race (VERIF_RACE=1); see race_detector_compiled_in")
 	r.Exhaustive(true)
 	r.Require(r.Get("free_running_iterations") > 0, "no iteration ran")
@@ -677,9 +706,19 @@ func phaseMconn() {
 	const capC1, capC2 = 5000, 2500
 	sizes8 := []int{0, 1, mp - 1, mp, mp + 1, 3 * mp, capC1, capC1 + 1}
 	km := 3
-	opLen := 6
+	opLen := 5
 	if r.Thorough() {
-		km, opLen = 4, 8
+		km, opLen = 4, 7
+	}
+	// packets sent between two enqueues, flush policies (0: at the end, 1: after every send step, 2: after every enqueue)
+	gapsFor := func(m int) ([]string, int) {
+		switch {
+		case !r.Thorough():
+			return []string{"", "S", "D"}, 2
+		case m <= 3:
+			return []string{"", "S", "SS", "D"}, 3
+		}
+		return []string{"", "D"}, 2
 	}
 	record := func(s mconnSpec, fs []finding, obs *mconnObs, stack bool) {
 		tick()
@@ -708,7 +747,7 @@ func phaseMconn() {
 			names += fmt.Sprintf("%d:%s,", m.Ch, nm)
 		}
 		if len(obs.accepted) > 0 || obs.pkts > 0 {
-			r.Distinct("distinct_nontrivial", fmt.Sprintf("mconn|%s|%s|%d|%s%d|%v|%s", names, s.Ops, s.ReadChunk, s.Raw, s.Param, stack, obs.outcome))
+			nontrivial.add(fmt.Sprintf("mconn|%s|%s|%d|%s%d|%v|%s", names, s.Ops, s.ReadChunk, s.Raw, s.Param, stack, obs.outcome))
 		}
 		if len(fs) > 0 {
 			ss := s
@@ -822,10 +861,31 @@ func phaseMconn() {
 	}, nil)
 	finishPhase("mconn-op-sequences", done, n, t0)
 
+	nTokens := int64(len(chanIDs) * len(sizes8))
+	// ---- the full stack: MConnection over real SecretConnections
+	t0 = time.Now()
+	var stack []mconnSpec
+	for a := 0; a < int(nTokens); a++ {
+		ma := mMsg{chanIDs[a/len(sizes8)], sizes8[a%len(sizes8)]}
+		stack = append(stack, mconnSpec{Msgs: []mMsg{ma}, Ops: "E", QueueCap: 4, Capacity: capC1, Stack: true})
+		for b := 0; b < int(nTokens); b++ {
+			mb := mMsg{chanIDs[b/len(sizes8)], sizes8[b%len(sizes8)]}
+			stack = append(stack, mconnSpec{Msgs: []mMsg{ma, mb}, Ops: "EE", QueueCap: 4, Capacity: capC1, Stack: true})
+			if r.Thorough() {
+				stack = append(stack, mconnSpec{Msgs: []mMsg{ma, mb}, Ops: "ESFE", QueueCap: 4, Capacity: capC1, Stack: true})
+			}
+		}
+	}
+	done = pool(int64(len(stack)), nil, func(_ interface{}, i int64) interface{} {
+		s := stack[i]
+		fs, obs := runMconn(s)
+		r.Add("clean_handshakes", 1)
+		record(s, fs, &obs, true)
+		return nil
+	}, nil)
+	finishPhase("mconn-full-stack", done, int64(len(stack)), t0)
 	// ---- all message vectors x coarse schedules
 	t0 = time.Now()
-	gaps := []string{"", "S", "SS", "D"}
-	nTokens := int64(len(chanIDs) * len(sizes8))
 	type blk struct {
 		m     int
 		count int64
@@ -833,7 +893,8 @@ func phaseMconn() {
 	var blocks []blk
 	var total int64
 	for m := 1; m <= km; m++ {
-		c := int64(3)
+		gaps, nPol := gapsFor(m)
+		c := int64(nPol)
 		for i := 0; i < m; i++ {
 			c *= nTokens
 		}
@@ -852,8 +913,9 @@ func phaseMconn() {
 			}
 			i -= b.count
 		}
-		pol := int(i % 3)
-		i /= 3
+		gaps, nPol := gapsFor(m)
+		pol := int(i % int64(nPol))
+		i /= int64(nPol)
 		s := mconnSpec{QueueCap: 4, Capacity: capC1}
 		var g []int
 		for k := 0; k < m-1; k++ {
@@ -894,27 +956,5 @@ func phaseMconn() {
 	}, nil)
 	finishPhase("mconn-message-vectors", done, total, t0)
 
-	// ---- the full stack: MConnection over real SecretConnections
-	t0 = time.Now()
-	var stack []mconnSpec
-	for a := 0; a < int(nTokens); a++ {
-		ma := mMsg{chanIDs[a/len(sizes8)], sizes8[a%len(sizes8)]}
-		stack = append(stack, mconnSpec{Msgs: []mMsg{ma}, Ops: "E", QueueCap: 4, Capacity: capC1, Stack: true})
-		for b := 0; b < int(nTokens); b++ {
-			mb := mMsg{chanIDs[b/len(sizes8)], sizes8[b%len(sizes8)]}
-			stack = append(stack, mconnSpec{Msgs: []mMsg{ma, mb}, Ops: "EE", QueueCap: 4, Capacity: capC1, Stack: true})
-			if r.Thorough() {
-				stack = append(stack, mconnSpec{Msgs: []mMsg{ma, mb}, Ops: "ESFE", QueueCap: 4, Capacity: capC1, Stack: true})
-			}
-		}
-	}
-	done = pool(int64(len(stack)), nil, func(_ interface{}, i int64) interface{} {
-		s := stack[i]
-		fs, obs := runMconn(s)
-		r.Add("clean_handshakes", 1)
-		record(s, fs, &obs, true)
-		return nil
-	}, nil)
-	finishPhase("mconn-full-stack", done, int64(len(stack)), t0)
 	_ = sort.Ints
 }
